@@ -109,7 +109,7 @@ def gen_source(rng):
                     rng, ("clean_qq", "suppress_lot_divs", "qq_depth_min",
                           "segment", "default_ns", "ocr_scrub"), hi=2),
                 "parse_qq": rng.random() < 0.8,
-                "source": rng.choice((None, "doc 17", 42))}
+                "source": rng.choice((None, "doc 17", 42, "@vol 3", "=A1", 0))}
     if r < 0.8:
         return {"kind": "desc", "text": rng.choice(corpus.HANDPICKED),
                 "config": None, "parse_qq": True, "source": None}
@@ -154,7 +154,8 @@ def gen_plan(rng):
                     [rng.randrange(n_src) for _ in range(rng.randint(1, 3))],
                     None))
                 ops.append({"op": "tw_write", "w": w, "src": srcsel,
-                            "plus": "auto"})
+                            "plus": "auto",
+                            "as": rng.choice(("list", "list", "iter", "tuple"))})
             elif open_w and r < 0.78:
                 w = rng.choice(sorted(open_w))
                 ops.append({"op": "tw_close", "w": w})
@@ -479,7 +480,16 @@ class Runner:
             tracts = self.src_tracts(op["src"])
             plus = None
             if w["plus"] and op["plus"] == "auto":
-                plus = [f"p{k}", 7][:len(w["plus"])]
+                plus = [("=1+1" if k % 3 == 0 else f"p{k}"), 7][:len(w["plus"])]
+            def as_given():
+                o = self.src_obj(op["src"])
+                if op.get("as") == "iter" and isinstance(o, list):
+                    self.bump("write_given_an_iterator")
+                    return iter(o)
+                if op.get("as") == "tuple" and isinstance(o, list):
+                    return tuple(o)
+                return o
+
             if not w["open"]:
                 try:
                     w["obj"].write(self.src_obj(op["src"]), plus_cols=plus)
@@ -502,7 +512,7 @@ class Runner:
                     n += 1
                 self.note_cells(tracts, w["attrs"])
             self.pending = (w["path"], rows)
-            ret = w["obj"].write(self.src_obj(op["src"]), plus_cols=plus)
+            ret = w["obj"].write(as_given(), plus_cols=plus)
             if w["uid"] is not None:
                 w["uid"] += 1
             self.model[w["path"]] = rows
